@@ -245,8 +245,8 @@ def meta(tier):
     }
 
 
-def load(acc, isa, yaml, expect_ok, what, clause, src='; nothing\n    .byte 1\n'):
-    case = Case(isa, src, isa_yaml=yaml)
+def load(acc, isa, yaml, expect_ok, what, clause, src='; nothing\n    .byte 1\n', isa_file=None):
+    case = Case(isa, src, isa_yaml=yaml, isa_file=isa_file)
     out = acc.run(case)
     spec = {'expect': 'OK', 'image_hex': '01'} if expect_ok else {'expect': 'REJECT', 'why': what}
     if expect_ok and isa.get('general', {}).get('origin'):
@@ -318,6 +318,26 @@ def shard(acc, tier, idx, n):
             isa = probe_isa(16, 'little', name=lang_ok, version='1.2.3')
             src = f'#require "{lang_ok if name_ok else lang_other}"\n    .byte 1\n'
             load(acc, isa, False, name_ok, 'bare #require', 'require', src=src)
+    file_named_languages(acc, idx, n, ctr)
+
+
+def file_named_languages(acc, idx, n, ctr0):
+    """A definition without identifier.name is called after its file (base name without the extension, dots and all)."""
+    ctr = ctr0
+    for fname, yaml in (('plain.json', False), ('acme.cpu8.json', False), ('my.isa.v2.yaml', True), ('under_score-x.yaml', True)):
+        base = fname.rsplit('.', 1)[0]
+        for lang in dict.fromkeys([base, base.split('.')[0], base + '.x', 'other']):
+            for op, req_v in ((None, None), ('>=', '1.0.0'), ('==', '1.2.0'), ('>', '1.2.0'), ('<', '1.10.0'), ('<=', '1.1.9')):
+                ctr += 1
+                if ctr % n != idx:
+                    continue
+                isa = probe_isa(16, 'little', version='1.2.0')
+                isa['general']['identifier'] = {'version': '1.2.0'}           # no name: the file name is the language
+                sat = True if op is None else {'>=': True, '==': True, '>': False, '<': True, '<=': False}[op]
+                line = f'#require "{lang}"' if op is None else f'#require "{lang} {op} {req_v}"'
+                load(acc, isa, yaml, sat and lang == base, f'{line} with the definition in {fname} (no identifier name)', 'require',
+                     src=line + '\n    .byte 1\n', isa_file=fname)
+    return ctr
 
 
 def judge(spec, outcomes):
